@@ -2,6 +2,7 @@
 Rules are transcribed from the puzzles' published rules (DESIGN.md Appendix A), independently of
 the constraint models in cspuz.puzzle.*."""
 
+import functools
 import itertools
 
 from hypothesis import strategies as st
@@ -147,8 +148,46 @@ class Norinori(Spec):
 
     def instance(self, draw, max_cells):
         h, w = draw_board(draw, st, max_cells)
-        rooms, _ = draw_rooms(draw, st, h, w, (1, 1, 2))
-        return dict(h=h, w=w, rooms=[[list(c) for c in r] for r in rooms])
+        if draw(st.integers(0, 3)) == 0 or h * w < 2:
+            rooms, _ = draw_rooms(draw, st, h, w, (1, 1, 2))
+            return dict(h=h, w=w, rooms=[[list(c) for c in r] for r in rooms])
+        # plant non-touching dominoes, then grow one room around each domino (optionally merge two)
+        cells = all_cells(h, w)
+        black = set()
+        dominoes = []
+        for (y, x) in draw(st.permutations(cells)):
+            for (y2, x2) in ((y, x + 1), (y + 1, x)):
+                if y2 < h and x2 < w and draw(st.booleans()):
+                    pair = {(y, x), (y2, x2)}
+                    around = {q for c in pair for q in neighbors4(c[0], c[1], h, w)} | pair
+                    if not (around & black):
+                        black |= pair
+                        dominoes.append(pair)
+                    break
+        if not dominoes:
+            rooms, _ = draw_rooms(draw, st, h, w, (1, 1, 2))
+            return dict(h=h, w=w, rooms=[[list(c) for c in r] for r in rooms])
+        owner = {c: i for i, d in enumerate(dominoes) for c in d}
+        free = [c for c in cells if c not in owner]
+        progress = True
+        while free and progress:
+            progress = False
+            for c in list(free):
+                opts = [owner[q] for q in neighbors4(c[0], c[1], h, w) if q in owner]
+                if opts:
+                    owner[c] = opts[draw(st.integers(0, len(opts) - 1))]
+                    free.remove(c)
+                    progress = True
+        rooms = [[] for _ in dominoes]
+        for c in cells:
+            rooms[owner[c]].append(c)
+        if draw(st.integers(0, 3)) == 0:
+            # perturb: split a cell off into its own room (usually makes the instance unsatisfiable)
+            r = rooms[draw(st.integers(0, len(rooms) - 1))]
+            if len(r) > 2:
+                c = r.pop()
+                rooms.append([c])
+        return dict(h=h, w=w, rooms=[[list(c) for c in r] for r in rooms if r])
 
     def solve(self, inst):
         from cspuz.puzzle import norinori
@@ -508,8 +547,46 @@ class Putteria(Spec):
 
     def instance(self, draw, max_cells):
         h, w = draw_board(draw, st, max_cells)
-        rooms, _ = draw_rooms(draw, st, h, w, (1, 1, 2))
-        return dict(h=h, w=w, rooms=[[list(c) for c in r] for r in rooms])
+        if draw(st.integers(0, 3)) == 0 or h * w < 2:
+            rooms, _ = draw_rooms(draw, st, h, w, (1, 1, 2))
+            return dict(h=h, w=w, rooms=[[list(c) for c in r] for r in rooms])
+        # plant non-touching dominoes, then grow one room around each domino (optionally merge two)
+        cells = all_cells(h, w)
+        black = set()
+        dominoes = []
+        for (y, x) in draw(st.permutations(cells)):
+            for (y2, x2) in ((y, x + 1), (y + 1, x)):
+                if y2 < h and x2 < w and draw(st.booleans()):
+                    pair = {(y, x), (y2, x2)}
+                    around = {q for c in pair for q in neighbors4(c[0], c[1], h, w)} | pair
+                    if not (around & black):
+                        black |= pair
+                        dominoes.append(pair)
+                    break
+        if not dominoes:
+            rooms, _ = draw_rooms(draw, st, h, w, (1, 1, 2))
+            return dict(h=h, w=w, rooms=[[list(c) for c in r] for r in rooms])
+        owner = {c: i for i, d in enumerate(dominoes) for c in d}
+        free = [c for c in cells if c not in owner]
+        progress = True
+        while free and progress:
+            progress = False
+            for c in list(free):
+                opts = [owner[q] for q in neighbors4(c[0], c[1], h, w) if q in owner]
+                if opts:
+                    owner[c] = opts[draw(st.integers(0, len(opts) - 1))]
+                    free.remove(c)
+                    progress = True
+        rooms = [[] for _ in dominoes]
+        for c in cells:
+            rooms[owner[c]].append(c)
+        if draw(st.integers(0, 3)) == 0:
+            # perturb: split a cell off into its own room (usually makes the instance unsatisfiable)
+            r = rooms[draw(st.integers(0, len(rooms) - 1))]
+            if len(r) > 2:
+                c = r.pop()
+                rooms.append([c])
+        return dict(h=h, w=w, rooms=[[list(c) for c in r] for r in rooms if r])
 
     def solve(self, inst):
         from cspuz.puzzle import putteria
@@ -535,12 +612,29 @@ class Putteria(Spec):
         return sols, 0
 
 
+@functools.lru_cache(maxsize=None)
+def nurimisaki_clue_free(h, w):
+    """all markings obeying the clue-independent rules (whites connected and non-empty, no 2x2
+    block of one colour)"""
+    cells = set(all_cells(h, w))
+    out = []
+    for m in range(1 << (h * w)):
+        white = mask_cells(m, h, w)
+        if white and connected(white) and not has_2x2(white, h, w) and not has_2x2(cells - white, h, w):
+            out.append(frozenset(white))
+    return out
+
+
 class Nurimisaki(Spec):
     name = "nurimisaki"
 
     def instance(self, draw, max_cells):
         h, w = draw_board(draw, st, max_cells)
-        white = planted_mask(draw, h, w, (3, 5))
+        valid = nurimisaki_clue_free(h, w)
+        if valid and draw(st.integers(0, 4)) > 0:
+            white = valid[draw(st.integers(0, len(valid) - 1))]
+        else:
+            white = planted_mask(draw, h, w, (3, 5))
         prob = [[-1] * w for _ in range(h)]
         for (y, x) in sorted(white):
             nb = [q for q in neighbors4(y, x, h, w) if q in white]
@@ -724,19 +818,56 @@ def tetromino_class(cells):
 
 class Lits(Spec):
     name = "lits"
-    max_cells_quick = 12
+    max_cells_quick = 16
+    max_cells_thorough = 20
 
     def instance(self, draw, max_cells):
-        h, w = draw_board(draw, st, max_cells, min_side=2, max_side=5)
-        if h * w < 8:
+        h, w = draw_board(draw, st, max_cells, min_side=1, max_side=8)
+        if h * w < 4:
             h, w = 2, 4
-        n_rooms = draw(st.integers(1, max(1, h * w // 4)))
-        grid = spanning_rooms(draw, h, w, n_rooms)
-        rooms = {}
-        for y in range(h):
-            for x in range(w):
-                rooms.setdefault(grid[y][x], []).append([y, x])
-        return dict(h=h, w=w, rooms=list(rooms.values()))
+        cells = all_cells(h, w)
+        if draw(st.integers(0, 3)) == 0:
+            n_rooms = draw(st.integers(1, max(1, h * w // 4)))
+            grid = spanning_rooms(draw, h, w, n_rooms)
+            rooms = {}
+            for y in range(h):
+                for x in range(w):
+                    rooms.setdefault(grid[y][x], []).append([y, x])
+            return dict(h=h, w=w, rooms=list(rooms.values()))
+        # plant disjoint tetrominoes (random growth), then grow one room around each
+        owner = {}
+        k = 0
+        for _ in range(draw(st.integers(1, max(1, h * w // 4)))):
+            free = [c for c in cells if c not in owner]
+            if len(free) < 4:
+                break
+            shape = [free[draw(st.integers(0, len(free) - 1))]]
+            while len(shape) < 4:
+                front = sorted({q for c in shape for q in neighbors4(c[0], c[1], h, w)
+                                if q not in owner and q not in shape})
+                if not front:
+                    break
+                shape.append(front[draw(st.integers(0, len(front) - 1))])
+            if len(shape) == 4:
+                for c in shape:
+                    owner[c] = k
+                k += 1
+        if k == 0:
+            return dict(h=h, w=w, rooms=[[list(c) for c in cells]])
+        free = [c for c in cells if c not in owner]
+        progress = True
+        while free and progress:
+            progress = False
+            for c in list(free):
+                opts = [owner[q] for q in neighbors4(c[0], c[1], h, w) if q in owner]
+                if opts:
+                    owner[c] = opts[draw(st.integers(0, len(opts) - 1))]
+                    free.remove(c)
+                    progress = True
+        rooms = [[] for _ in range(k)]
+        for c in cells:
+            rooms[owner[c]].append(list(c))
+        return dict(h=h, w=w, rooms=rooms)
 
     def solve(self, inst):
         from cspuz.puzzle import lits
